@@ -23,7 +23,8 @@ RULE = ("configuration = 1-6 deb / deb-<arch> / deb-src lines with optional [arc
         "option changes only the repository whose key equals its URL up to trailing slashes; non-trivial+distinct = distinct "
         "line multisets with >=2 lines sharing a URL")
 
-URLS = ["http://h1.example/debian", "http://h1.example/debian-security", "http://h2.example/ubuntu", "http://h1.example/deb"]
+URLS = ["http://h1.example/debian", "http://h1.example/debian-security", "http://h2.example/ubuntu", "http://h1.example/deb",
+        "http://h1.example/debian/pve"]   # the last one is nested below the first (its mirror directory lies inside the other's)
 CODENAMES = ["stable", "testing"]
 FLATS = ["./", "flat/"]
 COMPS = ["main", "contrib", "non-free"]
@@ -273,10 +274,25 @@ def monitor_options(chk, rng, lines):
         chk.violation(sig, replay, f"loading a configuration with option line {line!r} raises {err}")
         return
     snap = snapshot_options(cfg)
-    expect_key = driver().call("findkey", keys=keys, queries=[u])[0] if kind != "skip-clean" else (
-        target if target in keys else None)
     changed = [k for k in keys if snap[k] != base_snap[k]]
-    want = [expect_key] if expect_key is not None else []
+    if kind != "skip-clean":
+        expect_key = driver().call("findkey", keys=keys, queries=[u])[0]
+        want = [expect_key] if expect_key is not None else []
+    else:
+        # a skip-clean URL names a directory; it protects that directory in every repository whose mirror directory contains
+        # it, i.e. whose URL is a path prefix (component-wise) of the skip-clean URL - with nested repositories more than one
+        from urllib.parse import urlsplit
+        su = urlsplit(line.split()[1])
+        want = []
+        for k in keys:
+            ku = urlsplit(k)
+            kp = [c for c in ku.path.split("/") if c]
+            sp = [c for c in su.path.split("/") if c]
+            if (ku.scheme, ku.netloc) == (su.scheme, su.netloc) and sp[:len(kp)] == kp:
+                want.append(k)
+                rel = "/".join(sp[len(kp):]) or "."
+                if rel not in snap[k]["skip_clean"]:
+                    chk.violation("option:skip-clean:path", replay, f"{line!r}: repository {k} should protect {rel!r}, has {snap[k]['skip_clean']}")
     if sorted(changed) != sorted(want):
         chk.violation("option:scope:" + kind, replay,
                       f"option line {line!r} changed repositories {changed}, should change exactly {want}")
